@@ -50,6 +50,60 @@ def div_pairs(rng, nl, dl, count):
     return out
 
 
+def _recip2_sim(d1, d0):
+    """The 3-by-2 reciprocal of Moeller-Granlund (Algorithm 6) on exact integers; returns (third adjustment entered, p, t0)."""
+    v = ((1 << 128) - 1) // d1 - B
+    p = (d1 * v + d0) % B
+    if p < d0:
+        v -= 1
+        if p >= d1:
+            v -= 1
+            p -= d1
+        p = (p - d1) % B
+    t = (v % B) * d0
+    t1, t0 = t >> 64, t % B
+    p2 = (p + t1) % B
+    return p2 < t1, p2, t0
+
+
+def recip2_tie_cases(rng, count):
+    """Divisors d = (d1, d0) for which the LAST adjustment of the 3-by-2 reciprocal compares two double words with EQUAL high
+    words (p = d1), so that the low words decide - a 2^-64 event for random d.  Solved for: with r = (2^128 - 1) mod d1 and the
+    first adjustment taken once (twice), p = d1 needs floor(v' d0 / 2^64) + d0 = 2 d1 + 1 + r (3 d1 + 1 + r), and the left
+    side is monotone in d0."""
+    out = []
+    tries = 0
+    while len(out) < count and tries < 200 * count:
+        tries += 1
+        d1 = rng.getrandbits(64) | (1 << 63)
+        if rng.random() < 0.7:
+            d1 = (1 << 63) + rng.getrandbits(rng.randrange(40, 63))      # c = d1 / 2^64 near 1/2 makes the constraints easy
+        v = ((1 << 128) - 1) // d1 - B
+        r = ((1 << 128) - 1) % d1
+        for steps in (1, 2):
+            vv = v - steps
+            if vv < 0:
+                continue
+            target = (steps + 1) * d1 + 1 + r
+            lo, hi = r + 1 + (steps - 1) * d1, min(B - 1, r + steps * d1)
+            if lo > hi:
+                continue
+            f = lambda x: ((vv * x) >> 64) + x
+            a, b = lo, hi
+            while a < b:
+                mid = (a + b) // 2
+                if f(mid) >= target:
+                    b = mid
+                else:
+                    a = mid + 1
+            for d0 in (a, a + 1, a - 1):
+                if lo <= d0 <= hi:
+                    entered, p, t0 = _recip2_sim(d1, d0)
+                    if entered and p == d1:
+                        out.append((d1, d0, t0 < d0))
+    return out
+
+
 def scenarios(tier, rng):
     quick = tier == "quick"
     sc = []
@@ -130,6 +184,10 @@ def scenarios(tier, rng):
     for d1 in d1s:
         for d0 in {0, 1, d1, B - 1, B - 2, 1 << 63, rng.getrandbits(64)}:
             sc.append({"g": "kern", "op": "krecip2", "d": tobytes((d1 << 64) | d0)})
+    # the last adjustment with equal high words: both outcomes of the low-word comparison
+    ties = recip2_tie_cases(rng, 40 if quick else 400)
+    for d1, d0, _ in ties:
+        sc.append({"g": "kern", "op": "krecip2", "d": tobytes((d1 << 64) | d0)})
     sc.append({"g": "kern", "op": "krecip2", "d": tobytes(1 << 127)})
     sc.append({"g": "kern", "op": "krecip2", "d": tobytes((1 << 128) - 1)})
     # 2x1 and 3x2
